@@ -2,7 +2,9 @@
 package c18
 
 import (
+	"bytes"
 	"fmt"
+	"log/slog"
 	"os"
 	"reflect"
 	"runtime"
@@ -25,16 +27,48 @@ var R = stats.New("C18")
 
 func TestMain(m *testing.M) { R.Main(m) }
 
+// msg builds message number id with every field set, as the stream handler sets them for an MSM frame, and
+// with raw data of various lengths - most short, some as long as the longest frame (1029 bytes) and beyond
+// (a non-RTCM block).  The queue must hand back exactly what it was given.
 func msg(id int) handler.Message {
-	return handler.Message{MessageType: id, RawData: []byte{byte(id >> 24), byte(id >> 16), byte(id >> 8), byte(id)}}
+	n := 4
+	switch id % 64 {
+	case 7:
+		n = 1026
+	case 19:
+		n = 1027
+	case 33:
+		n = 1029
+	case 51:
+		n = 1500
+	case 60:
+		n = 300
+	}
+	raw := make([]byte, n)
+	for i := range raw {
+		raw[i] = byte(id*31 + i*7)
+	}
+	raw[0], raw[1], raw[2], raw[3] = byte(id>>24), byte(id>>16), byte(id>>8), byte(id)
+	m := handler.Message{MessageType: id, RawData: raw}
+	if id%3 != 0 {
+		m.Timestamp = uint(id)&0x3fffffff | 1
+		m.SentAt = fmt.Sprintf("Time 2023-05-13 %08d", id)
+		m.StartOfWeek = fmt.Sprintf("Start of week %d", id)
+		m.ErrorMessage = fmt.Sprintf("note %d", id)
+		m.LogLevel = slog.Level(id%5 - 4)
+		m.Readable = fmt.Sprintf("readable %d", id)
+	}
+	return m
 }
 
 func ids(ms []handler.Message) []int {
 	out := make([]int, len(ms))
 	for i, m := range ms {
 		out[i] = m.MessageType
-		if len(m.RawData) != 4 || int(m.RawData[0])<<24|int(m.RawData[1])<<16|int(m.RawData[2])<<8|int(m.RawData[3]) != m.MessageType {
-			out[i] = -1000000 - i
+		w := msg(m.MessageType)
+		if !bytes.Equal(m.RawData, w.RawData) || m.Timestamp != w.Timestamp || m.SentAt != w.SentAt || m.StartOfWeek != w.StartOfWeek ||
+			m.ErrorMessage != w.ErrorMessage || m.LogLevel != w.LogLevel || !reflect.DeepEqual(m.Readable, w.Readable) {
+			out[i] = -1000000 - i // not the message that was added
 		}
 	}
 	return out
